@@ -123,6 +123,54 @@ func runKeyE2E(dir, backend, in, out string) error {
 	p1 := pass()
 	contacts1 := atomic.LoadInt64(&getContacts)
 	p2 := pass()
+	// third pass: the same requests in origin form over ONE CONNECT tunnel (opened to the first host spelling); the resource
+	// is named by each request's own Host header, not by the tunnel's authority
+	var tconn net.Conn
+	var tbr *bufio.Reader
+	doTunnel := func(c keyCaseIn) (int, string, error) {
+		for attempt := 0; attempt < 2; attempt++ {
+			if tconn == nil {
+				cc, r, err := d.openTunnelTo(hostOf["h.example"])
+				if err != nil {
+					return 0, "", err
+				}
+				tconn, tbr = cc, r
+			}
+			var b bytes.Buffer
+			fmt.Fprintf(&b, "%s %s HTTP/1.1\r\nHost: %s\r\nX-Case-Id: %d\r\n\r\n", c.Method, c.Target, hostOf[c.Host], c.ID)
+			tconn.SetDeadline(time.Now().Add(5 * time.Second))
+			if _, err := tconn.Write(b.Bytes()); err != nil {
+				tconn.Close()
+				tconn = nil
+				continue
+			}
+			resp, err := http.ReadResponse(tbr, &http.Request{Method: c.Method})
+			if err != nil {
+				tconn.Close()
+				tconn = nil
+				if attempt == 0 {
+					continue
+				}
+				return 0, "", err
+			}
+			_, err = io.ReadAll(resp.Body)
+			if err != nil || resp.Close {
+				tconn.Close()
+				tconn = nil
+			}
+			return resp.StatusCode, resp.Header.Get("X-Echo-Id"), err
+		}
+		return 0, "", fmt.Errorf("could not send")
+	}
+	p3 := make([]obs, len(cases))
+	for i, c := range cases {
+		st, e, err := doTunnel(c)
+		if err != nil {
+			st = 0
+		}
+		id, _ := strconv.Atoi(e)
+		p3[i] = obs{st, id, ""}
+	}
 	of, err := os.Create(out)
 	if err != nil {
 		return err
@@ -132,7 +180,8 @@ func runKeyE2E(dir, backend, in, out string) error {
 	defer w.Flush()
 	enc := json.NewEncoder(w)
 	for i, c := range cases {
-		enc.Encode(map[string]any{"id": c.ID, "s1": p1[i].status, "e1": p1[i].echo, "s2": p2[i].status, "e2": p2[i].echo, "x2": strings.ToUpper(p2[i].xc)})
+		enc.Encode(map[string]any{"id": c.ID, "s1": p1[i].status, "e1": p1[i].echo, "s2": p2[i].status, "e2": p2[i].echo, "x2": strings.ToUpper(p2[i].xc),
+			"s3": p3[i].status, "e3": p3[i].echo})
 	}
 	sf, err := os.Create(out + ".summary")
 	if err != nil {
